@@ -109,6 +109,10 @@ class Debugger:
     def reset(self) -> None:
         """Reset the internal state of the debugger."""
         self.vm.reset()
+        self.calls = 0
+        # As in __init__: the data segment is laid out before debugging starts.
+        for data_op in self.program.data:
+            data_op.execute(self.vm)
 
     def op(self, index=None) -> AbstractOperation:
         """
